@@ -248,3 +248,13 @@ Example quotes_and_concat_no_update :
   /\ needs_update_leaf (fun _ => true) [Tok 3 [34; 97; 34]] [Tok 3 [39; 97; 39]] = Some false
   /\ needs_update_leaf (fun _ => true) [Tok 2 [48; 120; 49]] [Tok 2 [49]] = Some true.
 Proof. repeat split; vm_compute; reflexivity. Qed.
+
+(* F-08 (known finding of C08) in the model: repr(1+2j) is parenthesised, asttokens locates the node without the parentheses, so the comparison
+   of the node tokens `1 + 2j` with the value tokens `( 1 + 2j )` reports an update on every run, for both comparisons *)
+Theorem parenthesised_repr_refuted :
+  let node := [Tok 2 [49]; t_op [43]; Tok 2 [50; 106]] in
+  let canon := t_op [40] :: node ++ [t_op [41]] in
+  wf_canon (fun _ => true) canon /\ needs_update_leaf (fun _ => true) node canon = Some true /\ needs_update_norm (fun _ => true) node canon = Some true.
+Proof. cbv zeta. split; [|split; vm_compute; reflexivity].
+  split; [|cbn; repeat split; intros; reflexivity].
+  repeat (apply Forall_cons; [right; split; reflexivity|]). apply Forall_nil. Qed.
